@@ -29,11 +29,13 @@ func c13Snssai(c *core.Ctx, k *core.Case) {
 	}
 	c.Eval(1)
 	enc := nasConvert.SnssaiToNas(m)
+	c.Hold(k, "nasConvert.SnssaiToNas", enc)
 	got, err := refconv.ParseNssai(enc)
 	if err != nil || len(got) != 1 || got[0] != want {
 		c.Fail(k, "snssai-layout", fmt.Sprintf("SnssaiToNas(%+v) = %x; spec decoder: %+v %v, want %+v", m, enc, got, err, want))
 	}
 	rej := nasConvert.RejectedSnssaiToNas(m, cause)
+	c.Hold(k, "nasConvert.RejectedSnssaiToNas", rej)
 	rg, err := refconv.ParseRejectedNssai(rej)
 	if err != nil || len(rg) != 1 || rg[0] != (refconv.Rejected{SST: sst, HasSD: hasSD, SD: want.SD, Cause: cause}) {
 		c.Fail(k, "rejected-snssai-layout", fmt.Sprintf("RejectedSnssaiToNas(%+v, %d) = %x; spec decoder: %+v %v", m, cause, rej, rg, err))
@@ -195,6 +197,7 @@ func c13TaiList(c *core.Ctx, k *core.Case) {
 	ms, want := c13RandTais(r, int(k.I[1]), int(k.I[2]))
 	c.Eval(1)
 	enc := nasConvert.TaiListToNas(ms)
+	c.Hold(k, "nasConvert.TaiListToNas", enc)
 	got, err := refconv.ParseTaiList(enc)
 	if err != nil || !taisEqual(got, want) {
 		c.Fail(k, "tailist-layout", fmt.Sprintf("TaiListToNas of %d TAIs over %d PLMNs = %x; spec decoder: %+v %v; want %+v", len(ms), k.I[2], enc, got, err, want))
@@ -228,6 +231,7 @@ func c13ServiceArea(c *core.Ctx, k *core.Case) {
 	}
 	c.Eval(1)
 	enc := nasConvert.PartialServiceAreaListToNas(models.PlmnId{Mcc: mcc, Mnc: mnc}, models.ServiceAreaRestriction{RestrictionType: rt, Areas: areas})
+	c.Hold(k, "nasConvert.PartialServiceAreaListToNas", enc)
 	got, err := refconv.ParseServiceAreaList(enc)
 	ok := err == nil && got.MCC == mcc && got.MNC == mnc && got.Allowed == (k.I[2] == 1) && len(got.TACs) == len(want)
 	if ok {
@@ -252,6 +256,7 @@ func c13Ladn(c *core.Ctx, k *core.Case) {
 	}
 	c.Eval(1)
 	enc := nasConvert.LadnToNas(string(dnn), ms)
+	c.Hold(k, "nasConvert.LadnToNas", enc)
 	got, err := refconv.ParseLadnInformation(enc)
 	if err != nil || len(got) != 1 || !bytes.Equal(got[0].DNN, dnn) || !taisEqual(got[0].TAIs, want) {
 		c.Fail(k, "ladn-layout", fmt.Sprintf("LadnToNas(%q, %d TAIs) = %x; spec decoder: %+v %v", dnn, len(ms), enc, got, err))
@@ -274,7 +279,11 @@ func c13LadnIndication(c *core.Ctx, k *core.Case) {
 	}
 	wire := refconv.LadnIndication(dnns)
 	c.Eval(1)
-	got := nasConvert.LadnToModels(cloneB(wire))
+	lbuf := cloneB(wire)
+	got := nasConvert.LadnToModels(lbuf)
+	if !bytes.Equal(lbuf, wire) {
+		c.Fail(k, "input-mutated", "LadnToModels changed the caller's buffer")
+	}
 	ok := len(got) == len(dnns)
 	if ok {
 		for i := range dnns {
